@@ -56,6 +56,8 @@ type walker struct {
 	depth    int
 	index    bool // walking index package (shard lock)
 	inDefer  bool
+	recv     string          // receiver prefix of the shared fields ("db." when empty)
+	fields   map[string]bool // shared fields (the DB's when nil)
 }
 
 func (w *walker) emit(action string) {
@@ -82,7 +84,11 @@ func (w *walker) lockCall(s string) (string, bool) {
 func (w *walker) sharedField(e ast.Expr) string {
 	if se, ok := e.(*ast.SelectorExpr); ok {
 		x := normRecv(exprStr(se.X) + ".")
-		if x == "db." && shared[se.Sel.Name] {
+		recv, set := "db.", shared
+		if w.recv != "" {
+			recv, set = w.recv, w.fields
+		}
+		if x == recv && set[se.Sel.Name] {
 			return se.Sel.Name
 		}
 	}
@@ -214,6 +220,13 @@ func (w *walker) call(c *ast.CallExpr) {
 	// inline same-package methods called on db itself
 	if strings.HasPrefix(s, "db.") && strings.Count(s, ".") == 1 {
 		name := "DB." + strings.TrimPrefix(s, "db.")
+		if fd, ok := funcs[name]; ok && w.depth < 6 {
+			w.inline(fd)
+			return
+		}
+	}
+	if w.recv == "m." && strings.HasPrefix(s, "m.") && strings.Count(s, ".") == 1 {
+		name := "MMap." + strings.TrimPrefix(s, "m.")
 		if fd, ok := funcs[name]; ok && w.depth < 6 {
 			w.inline(fd)
 			return
@@ -536,6 +549,21 @@ func main() {
 		w.top(fd)
 		shardRows = append(shardRows, w.rows...)
 	}
+	// the mapping state of fio.MMap, guarded by its own RWMutex (reads re-create the mapping after ResetFileSize)
+	funcs = map[string]*ast.FuncDecl{}
+	parseDir(filepath.Join(repo, "fio"))
+	var mmapRows []row
+	for _, name := range []string{"MMap.Read", "MMap.Write", "MMap.Sync", "MMap.Close", "MMap.Size", "MMap.ResetFileSize", "MMap.Truncate"} {
+		fd, ok := funcs[name]
+		if !ok {
+			mmapRows = append(mmapRows, row{name, 0, "missing", "none", 0})
+			continue
+		}
+		w := &walker{method: name, lockExpr: []string{"m.mu"}, st: state{"none", 0}, recv: "m.",
+			fields: map[string]bool{"activeMap": true, "endOff": true, "virtualSize": true}}
+		w.top(fd)
+		mmapRows = append(mmapRows, w.rows...)
+	}
 	funcs = funcsSaved
 
 	var sb strings.Builder
@@ -556,6 +584,7 @@ func main() {
 	}
 	emitTable("locksetTable", all)
 	emitTable("shardTable", shardRows)
+	emitTable("mmapTable", mmapRows)
 	sb.WriteString("end XixiKV.Generated\n")
 	writeIfChanged(filepath.Join(out, "Skeletons.lean"), sb.String())
 
